@@ -42,7 +42,7 @@ Lemma parse_content_S : forall f scope pprefix plocal s,
             | _ => PErr
             end)
           else
-            pbind (parse_element_with (parse_content f) (Some scope) r) (fun '(n, c1, rest) =>
+            pbind (parse_element_with f (parse_content f) (Some scope) r) (fun '(n, c1, rest) =>
             pbind (parse_content f scope pprefix plocal rest) (fun '(ch, c2, rest') =>
             POk (n :: ch, c1 + c2, rest')))
         end
